@@ -10,6 +10,7 @@ CONSTANTS
     MaxCheckouts = 2
     InitWs <- WsAbsent
     InitCache <- CacheFull
+    Twins <- TwinsDef
     Prompts = {"absent"}
 INVARIANT Inv_C05
 INVARIANT Inv_C05_Refusal
